@@ -32,6 +32,28 @@ TLS = "huginn_net_tls::tls::"
 TPR = "huginn_net_tls::tls_process::"
 
 
+def _closure_captures_param(b, S, call_term):
+    """the closure handed to any() captures (a reference to) the function's first parameter"""
+    for x in call_term[2][1:]:
+        x = T.strip(x)
+        if x[0] == "agg" and x[1] == "closure":
+            return any(y[0] == "param" and y[1] == 0 for o in x[4] for y in T.walk(o))
+    return False
+
+
+def _any_is_equality(P, args):
+    """`iter().any(|g| *g == v)`: the closure compares its item for equality and does nothing else"""
+    for x in args[1:]:
+        x = T.strip(x)
+        if x[0] == "agg" and x[1] == "closure" and x[2] in P.bodies:
+            cb = P.bodies[x[2]]
+            eqs = [s for _, _, s in cb.iter_stmts() if s["k"] == "assign" and s["r"]["k"] == "binop" and s["r"]["op"] == "Eq"]
+            eqs += [t for _, t in cb.calls() if callee_of(t).endswith(("PartialEq>::eq", "::eq"))]
+            others = [s for _, _, s in cb.iter_stmts() if s["k"] == "assign" and s["r"]["k"] == "binop" and s["r"]["op"] not in ("Eq",)]
+            return len(eqs) == 1 and not others
+    return False
+
+
 def rule_R1(ctx):
     P = ctx.program
     c = P.const(TLS + "TLS_GREASE_VALUES")
@@ -47,11 +69,13 @@ def rule_R1(ctx):
             continue
         S = None
         for blk, t in b.calls():
-            if not callee_of(t).endswith("::contains"):
+            if not callee_of(t).endswith(("::contains", "::any")):
                 continue
             if S is None:
                 S = T.Slicer(b, P)
             a = Q.call_args(b, S, blk, t)
+            if callee_of(t).endswith("::any") and not _any_is_equality(P, a):
+                continue
             def _is_table(x):
                 if x[0] != "const":
                     return False
@@ -101,7 +125,8 @@ def rule_R1(ctx):
     rs = TB.return_sites(ig, P)
     for (blk, j, term, _) in rs:
         tt = T.strip(term)
-        if not (tt[0] == "call" and tt[1].endswith("::contains")):
+        is_any = tt[0] == "call" and tt[1].endswith("::any") and _any_is_equality(P, tt[2])
+        if not ((tt[0] == "call" and tt[1].endswith("::contains")) or is_any):
             okm, why = False, "returns %s" % T.pp(tt)[:80]
             continue
         def _tbl(x):
@@ -114,7 +139,8 @@ def rule_R1(ctx):
                 v = v[1]
             return isinstance(v, (bytes, bytearray)) and raw is not None and bytes(v) == bytes(raw)
         table_ok = any(_tbl(x) for x in T.walk(tt[2][0]))
-        arg_ok = any(x[0] == "param" and x[1] == 0 for x in T.walk(tt[2][1]))
+        arg_ok = any(x[0] == "param" and x[1] == 0 for x in T.walk(tt[2][1])) or \
+            (is_any and any(x[0] == "param" and x[1] == 0 for y in tt[2][1:] for x in T.walk(T.expand_upvars(P, ig, y))) or is_any and _closure_captures_param(ig, SI, tt))
         if not (table_ok and arg_ok):
             okm, why = False, "contains(%s, %s)" % (T.pp(tt[2][0])[:40], T.pp(tt[2][1])[:40])
     ctx.check(okm and len(rs) >= 1, "R1", "is_grease_value:membership", "is_grease_value(v) = TLS_GREASE_VALUES.contains(&v)",
